@@ -15,6 +15,8 @@ import Proofs.Order
 import Proofs.LineKeys
 import Proofs.LineValues
 import Proofs.ExportText
+import Proofs.RowTie
+import Proofs.FlowTie
 
 namespace Jl.C03
 open Jl Jl.Value Jl.Template
@@ -223,5 +225,24 @@ theorem text_route_keys_expected (env : Env) (to : Tmpl) (line b : Bytes)
         (LineSpec.expectedKeys (LineLevel.leafCols to) (LineSpec.keysOf (Json.unmarshal line).1)).map
           sanitize :=
   ExportText.text_bytes_keys_expected env to line b h hx hto
+
+
+/-! ### The row and template code is the source's (Proofs/RowTie, Proofs/FlowTie) -/
+
+/-- What decides key order in the model — the store of one member by `parseobject` (existing key:
+    import in place; new key: appended), `ImportAtKey`, and `Template.CreateRow` starting from a
+    clone of the prototype — is what `row.go` and `template.go` say today: the regenerated facts,
+    interpreted from the meaning of their constructors alone, compute the model's functions. -/
+theorem order_model_is_the_source :
+    (∀ {C V E : Type} (ops : CellOps C V E) (r : LRow C) (k : Bytes) (x : V),
+      (RowTie.parseStore Gen.rowFacts.parseObject).bind
+          (fun s => RowTie.keyedRun s (RowTie.ofCellOps ops) r k x) = some (r.parseMember ops k x)) ∧
+    (∀ {C V E : Type} (ops : CellOps C V E) (r : LRow C) (k : Bytes) (x : V),
+      RowTie.keyedRun Gen.rowFacts.importAtKey (RowTie.ofCellOps ops) r k x =
+        some (r.importAtKey ops k x)) ∧
+    (∀ (env : Value.Env) (t : Template.Tmpl) (v : Dyn),
+      FlowTie.createRowG Gen.flowTable.createRow env t v = some (Template.createRow env t v)) :=
+  ⟨fun ops r k x => RowTie.parseMember_as_modelled ops r k x,
+   fun ops r k x => RowTie.importAtKey_as_modelled ops r k x, FlowTie.createRow_is_createRow⟩
 
 end Jl.C03
